@@ -198,6 +198,19 @@ pub fn note(kind: u64, id: usize) {
     TRACE.lock().unwrap().push((kind << 32) | id as u64);
 }
 
+/// per event kind (index = kind), for the evidence: how often each thing actually happened
+pub fn trace_kind_counts() -> [usize; 9] {
+    let t = TRACE.lock().unwrap();
+    let mut c = [0usize; 9];
+    for e in t.iter() {
+        let k = (e >> 32) as usize;
+        if k < 9 {
+            c[k] += 1;
+        }
+    }
+    c
+}
+
 pub fn trace_digest_and_reset() -> (u64, usize) {
     let mut t = TRACE.lock().unwrap();
     let mut h: u64 = 0xcbf2_9ce4_8422_2325;
@@ -281,7 +294,11 @@ fn main() {
     for w in w0..w1 {
         WSEED.store(w, SeqCst);
         scenario(w, &rt);
+        let k = trace_kind_counts();
         let (d, n) = trace_digest_and_reset();
-        println!("MSIM-OK scenario={} wseed={} trace={:016x}/{}", args[1], w, d, n);
+        println!(
+            "MSIM-OK scenario={} wseed={} trace={:016x}/{} entered={} completed={} dropped_unfinished={} answered_ok={} refused={} inner_error={} cancelled={} selections={}",
+            args[1], w, d, n, k[1], k[2], k[3], k[4], k[5], k[6], k[7], k[8]
+        );
     }
 }
